@@ -565,7 +565,7 @@ PROPS["C07"] = dict(
           "violation), Miri on the release profile (UB), and a chk-vs-ship digest comparison per shard; thorough adds Miri "
           "dev, ASan, valgrind; slider-table and book index ranges are exercised by C08 / C17 in the same flavours; "
           "distinct_nontrivial = distinct (input, sequence seed) pairs"),
-    floor=dict(any={"sequences-completed": 3000, "api:search": 3000, "api:movegen-ops": 5000, "positions:extremal": 50, "raw-board-histories": 3000, "printing-cases": 16, "concurrent-first-use-cases": 12, "gate-sweep-double-checks": 500,
+    floor=dict(any={"sequences-completed": 3000, "api:search": 3000, "api:movegen-ops": 5000, "positions:extremal": 50, "raw-board-histories": 3000, "printing-cases": 16, "concurrent-first-use-cases": 12, "gate-sweep-double-checks": 500, "positions:must-be-rejected": 1000,
                     "positions:random-accepted-not-chess": 500, "positions:fen-mutation": 3000,
                     "max:move-list-entries-estimated": 18, "sentinel-searches": 8, "clock-extreme-cases": 8,
                     "long-repetition-cases": 2}),
